@@ -1,0 +1,78 @@
+//go:build verif
+
+package sio
+
+import "time"
+
+// Inspection helpers for the verification harness (property C03: acknowledgements).
+// Nothing here changes behaviour; the file is compiled only with the `verif` build tag.
+
+// VerifBufferedFrame describes one frame held in a client socket's offline send buffer.
+type VerifBufferedFrame struct {
+	Tag    int64 // ack ID the frame is tagged with, -1 when it has none
+	Binary bool
+	Data   []byte
+}
+
+// VerifSendBuffer returns the frames currently buffered by a client socket (packets emitted while
+// the socket was not connected), in order. ok is false when the buffer mutex could not be taken
+// within `wait` (i.e. somebody left it locked).
+func VerifSendBuffer(socket ClientSocket, wait time.Duration) (frames []VerifBufferedFrame, ok bool) {
+	s, isClient := socket.(*clientSocket)
+	if !isClient {
+		return nil, false
+	}
+	deadline := time.Now().Add(wait)
+	for !s.sendBufferMu.TryLock() {
+		if time.Now().After(deadline) {
+			return nil, false
+		}
+		time.Sleep(time.Millisecond)
+	}
+	defer s.sendBufferMu.Unlock()
+	frames = make([]VerifBufferedFrame, len(s.sendBuffer))
+	for i, item := range s.sendBuffer {
+		f := VerifBufferedFrame{Tag: -1}
+		if item.ackID != nil {
+			f.Tag = int64(*item.ackID)
+		}
+		if item.packet != nil {
+			f.Binary = item.packet.IsBinary
+			f.Data = append([]byte(nil), item.packet.Data...)
+		}
+		frames[i] = f
+	}
+	return frames, true
+}
+
+// VerifPendingAcks returns the ack IDs that currently have an entry in the socket's ack table
+// (client or server socket), or ok = false when the table mutex could not be taken within `wait`.
+func VerifPendingAcks(socket Socket, wait time.Duration) (ids []uint64, ok bool) {
+	var (
+		mu interface {
+			TryLock() bool
+			Unlock()
+		}
+		acks map[uint64]*ackHandler
+	)
+	switch s := socket.(type) {
+	case *clientSocket:
+		mu, acks = &s.acksMu, s.acks
+	case *serverSocket:
+		mu, acks = &s.acksMu, s.acks
+	default:
+		return nil, false
+	}
+	deadline := time.Now().Add(wait)
+	for !mu.TryLock() {
+		if time.Now().After(deadline) {
+			return nil, false
+		}
+		time.Sleep(time.Millisecond)
+	}
+	defer mu.Unlock()
+	for id := range acks {
+		ids = append(ids, id)
+	}
+	return ids, true
+}
